@@ -133,7 +133,10 @@ class SRTWriter(BaseWriter):
             for node in caption.nodes:
                 new_content = self._recreate_line(new_content, node)
 
-            # Eliminate excessive line breaks
+            # Eliminate excessive line breaks; a blank line inside the cue
+            # would end it for every SRT parser
+            new_content = '\n'.join(
+                line for line in new_content.split('\n') if line.strip())
             new_content = new_content.strip()
 
             srt += f"{new_content}\n\n"
